@@ -23,7 +23,9 @@ RULE = (
     "pp (server sends PotentialParents; the client connects out: candidates), announce (a candidate or the parent "
     "sends DistributedBranchLevel/Root in 5 forms: level+root, root+level, level 0 alone, level alone, root alone; "
     "the first complete announcement without a parent makes the parent and the client drops the other candidates), "
-    "join (a peer connects in with type D: child, or candidate if its name is in the potential-parent cache), leave "
+    "join (a peer connects in with type D and PeerInit, or -- indirect -- lets the server relay ConnectToPeer of "
+    "type D so that the client connects to the peer and sends PeerPierceFirewall: child either way, or candidate if "
+    "its name is in the potential-parent cache), leave "
     "(a child, parent or candidate closes by EOF or reset), reset (server sends ResetDistributed: the client closes "
     "children and parent; optionally the close of one child connection is confirmed only after 0.2 / 1.5 / 5.5 s, "
     "as for a peer that does not drain its socket, and 0..2 new peers connect with type D while the client is "
@@ -44,8 +46,9 @@ RULE = (
 )
 ASSUMPTIONS = [
     "who is a current child is decided by the harness model of the documented rules (docs/source/DESIGN.rst "
-    "'Children'/'Parent'): an incoming type-D connection is a child unless its user name was listed in a "
-    "PotentialParents message; child acceptance is on and the child limit (5 by default, 20 with the announced "
+    "'Children'/'Parent'): a type-D connection made on the peer's initiative (the peer connects and sends "
+    "PeerInit, or the client connects on a server-relayed ConnectToPeer of the peer and pierces) is a child unless "
+    "its user name was listed in a PotentialParents message; child acceptance is on and the child limit (5 by default, 20 with the announced "
     "speed values) is never reached; an incoming connection from a listed potential parent is only generated while "
     "a parent is set (DESIGN.rst and the code disagree on the other case); children never announce branch values",
     "ServerSearchRequest is only sent while the client has no parent (acting as branch root); distributed carriers "
@@ -117,10 +120,15 @@ def _search(avoid_own=False):
     })
 
 
+# how a peer joins: it connects to the client's port and sends PeerInit ('direct'), or it lets the server relay a
+# ConnectToPeer of type D and the client connects to the peer and sends PeerPierceFirewall ('indirect')
+_VIA = st.sampled_from(['direct', 'indirect', 'indirect'])
+
+
 def _change():
     return st.one_of(
-        st.fixed_dictionaries({'op': st.just('join'), 'peer': st.integers(0, 4)}),
-        st.fixed_dictionaries({'op': st.just('join'), 'peer': st.integers(0, 4)}),
+        st.fixed_dictionaries({'op': st.just('join'), 'peer': st.integers(0, 4), 'via': st.just('direct')}),
+        st.fixed_dictionaries({'op': st.just('join'), 'peer': st.integers(0, 4), 'via': _VIA}),
         st.fixed_dictionaries({'op': st.just('leave'), 'which': st.integers(0, 7), 'how': st.sampled_from(['eof', 'reset']),
                                'glue': st.sampled_from(['none', 'none', 'before', 'after'])}),
         st.fixed_dictionaries({'op': st.just('pp'), 'peers': st.lists(st.integers(0, 4), min_size=1, max_size=2)}),
@@ -148,7 +156,7 @@ def case_strategy(draw, avoid_own=False):
     with_parent = draw(st.sampled_from([True, True, False]))
     n_kids = draw(st.integers(0, 3))
     kids_first = draw(st.booleans())
-    kid_ops = [{'op': 'join', 'peer': i} for i in range(n_kids)]
+    kid_ops = [{'op': 'join', 'peer': i, 'via': draw(st.sampled_from(['direct', 'direct', 'indirect']))} for i in range(n_kids)]
     if kids_first:
         ops += kid_ops
     if with_parent:
@@ -157,7 +165,7 @@ def case_strategy(draw, avoid_own=False):
         ops.append({'op': 'announce', 'which': 0, 'form': draw(st.sampled_from([0, 0, 1, 2])),
                     'level': draw(st.integers(1, 4)), 'root': draw(st.integers(0, 2))})
         if extra and draw(st.booleans()):
-            ops.append({'op': 'join', 'peer': 3})     # listed potential parent connects in: candidate
+            ops.append({'op': 'join', 'peer': 3, 'via': draw(st.sampled_from(['direct', 'direct', 'indirect']))})   # listed potential parent joins: candidate
     elif draw(st.booleans()):
         ops.append({'op': 'pp', 'peers': [4, 3][:draw(st.integers(1, 2))]})   # silent candidates, client stays root
     if not kids_first:
@@ -227,7 +235,8 @@ def _sanitise_inner(case):
             ops.append({'op': 'search', 'carrier': _int(o.get('carrier'), 0, 2), 'user': _int(o.get('user'), 0, 10 ** 6) % len(USERS),
                         'ticket': _int(o.get('ticket'), 0, 2 ** 32 - 1), 'q': q, 'glue': bool(o.get('glue'))})
         elif kind == 'join':
-            ops.append({'op': 'join', 'peer': _int(o.get('peer'), 0, 10 ** 6)})
+            ops.append({'op': 'join', 'peer': _int(o.get('peer'), 0, 10 ** 6),
+                        'via': 'indirect' if o.get('via') == 'indirect' else 'direct'})
         elif kind == 'leave':
             ops.append({'op': 'leave', 'glue': o.get('glue') if o.get('glue') in ('before', 'after') else 'none',
                         'which': _int(o.get('which'), 0, 10 ** 6),
@@ -366,6 +375,15 @@ def run_case(case) -> CaseResult:
             peers = {}
             for name in ASKERS + TREE:
                 peers[name] = world.add_peer(name, indirect='silent')
+            pierce_tickets = {}      # ticket of a relayed ConnectToPeer -> link on which the client pierced
+
+            def on_link(link):
+                # the client connected to the peer on the peer's (server relayed) request: a distributed connection
+                if isinstance(link.init, M.PeerPierceFirewall.Request) and link.init.ticket in pierce_tickets:
+                    link.typ = 'D'
+                    pierce_tickets[link.init.ticket] = link
+            for name in TREE:
+                peers[name].on_link = on_link
             client = await world.start_client(s)
             self_replies = []
 
@@ -390,7 +408,8 @@ def run_case(case) -> CaseResult:
                 known = {id(k.link) for k in conns}
                 for name in TREE:
                     for link in peers[name].links:
-                        if link.incoming_to_peer and link.typ == 'D' and id(link) not in known:
+                        if link.incoming_to_peer and link.typ == 'D' and id(link) not in known and \
+                                isinstance(link.init, M.PeerInit.Request):
                             conns.append(_Conn(link, name, 'candidate', False))
 
             def model_announce(k, msgs):
@@ -533,9 +552,24 @@ def run_case(case) -> CaseResult:
                     if name in cache and state['parent'] is None:
                         notes.append('skipped-ambiguous-join')
                         continue
-                    link = peers[name].connect('D')
-                    conns.append(_Conn(link, name, 'candidate' if name in cache else 'child', True))
-                    await quiet()
+                    role = 'candidate' if name in cache else 'child'
+                    if o.get('via') == 'indirect':
+                        ticket = 700000 + len(pierce_tickets)
+                        pierce_tickets[ticket] = None
+                        world.server.send(M.ConnectToPeer.Response(
+                            username=name, typ='D', ip=peers[name].ip, port=peers[name].port, ticket=ticket,
+                            privileged=False, obfuscated_port_amount=0, obfuscated_port=0))
+                        await quiet()
+                        link = pierce_tickets[ticket]
+                        if link is None:
+                            notes.append('indirect-join-not-connected')    # connecting is C11's subject
+                            continue
+                        conns.append(_Conn(link, name, role, True))
+                        notes.append('indirect-join:' + role)
+                    else:
+                        link = peers[name].connect('D')
+                        conns.append(_Conn(link, name, role, True))
+                        await quiet()
                 elif kind == 'leave':
                     live = [k for k in conns if k.open]
                     if not live:
